@@ -10,6 +10,7 @@ ISSUED = "probed handles have position < capacity (every issued handle; forged o
 
 def J(h, tier=Q, cost=60, **kw):
     mod = h.split("_", 1)[0]
+    kw.setdefault("role", "")
     return Job(harness="%s::%s" % (mod, h), tier=tier, cost=cost, **kw)
 
 
@@ -48,8 +49,282 @@ def c01():
     return jobs
 
 
+def c02():
+    a = (INV_ASSUME, NOOVF)
+    b = "capacity N <= 3; shapes: 1 column (u8), 2 columns (u8,u16), 3 columns (u8, padded repr(C) (u8,u32), ZST), 16 columns; 4..15 columns are the same seq! expansion (stated, not checked); heap-owning components not modelled here (token components in C04)"
+    def j(h, tier, cost, what, **kw):
+        return J(h, tier, cost, what=what, bounds=b, assumes=a, **kw)
+    return [
+        j("c02_paths_queries_tri_3", Q, 200, "4 query-macro read paths agree with the model, 3-column archetype"),
+        j("c02_paths_views_tri_3", Q, 150, "view fields / View::component / Borrow::component agree with the model"),
+        j("c02_paths_slices_tri_3", Q, 150, "get_slice / get_all_slices_mut / iter / iter_mut / borrow_slice agree with the model"),
+        j("c02_paths_queries_foo_3", T, 150, "query read paths, 1-column archetype"),
+        j("c02_paths_views_foo_3", T, 100, "view/borrow read paths, 1-column archetype"),
+        j("c02_paths_slices_foo_3", T, 100, "slice/iterator read paths, 1-column archetype"),
+        j("c02_paths_all_tri_2", T, 200, "all 12 read paths, N=2"),
+        j("c02_paths_all_other_2", T, 200, "all 12 read paths, second archetype sharing a component type"),
+        j("c02_paths_all_bar_2", T, 200, "all 12 read paths, 2-column archetype of W1"),
+        j("c02_write_queries_tri_2", Q, 300, "write through any query macro, read through any of 12 paths, rest unchanged"),
+        j("c02_write_others_tri_2", Q, 300, "write through view/borrow/slices/iter_mut, read through any of 12 paths"),
+        j("c02_write_queries_tri_3", T, 400, "write via queries N=3"),
+        j("c02_write_others_tri_3", T, 400, "write via non-query paths N=3"),
+        j("c02_write_all_foo_2", T, 300, "all write x read paths, 1 column"),
+        j("c02_write_all_other_2", T, 300, "all write x read paths, ArchOther"),
+        j("c02_destroy_tri_3", Q, 150, "destroy keeps every other entity's columns (3 columns incl. padded + ZST)"),
+        j("c02_destroy_any_tri_3", T, 150, "World::destroy(EntityAny), 3 columns"),
+        j("c02_destroy_direct_tri_3", T, 150, "destroy(EntityDirect), 3 columns"),
+        j("c02_destroy_other_3", T, 150, "destroy, 2 columns"),
+        j("c02_create_tri_3", T, 150, "create keeps every other entity's columns"),
+        j("c02_grow_tri_2", Q, 200, "growth 2->6 reallocates all 3 columns consistently"),
+        j("c02_grow_other_1", T, 150, "growth 1->4, 2 columns"),
+        j("c02_destroy_wide_2", Q, 300, "destroy on a 16-column archetype"),
+        j("c02_destroy_any_wide_2", T, 300, "World::destroy(EntityAny) on 16 columns"),
+        j("c02_create_wide_2", T, 300, "create on 16 columns"),
+        j("c02_grow_wide_1", Q, 300, "growth 1->4 on 16 columns"),
+        j("c02_destroy_wide_3", T, 500, "destroy on 16 columns, N=3"),
+    ]
+
+
+CLEAN_ENTITY = ("invalid entity handle", "resolve_entity")
+CLEAN_DIRECT = ("invalid entity handle", "resolve_direct")
+CLEAN_UNCHECKED = ("entity.archetype_id() == A::ARCHETYPE_ID", "from_any_unchecked")
+
+
+def c03():
+    a = (INV_ASSUME, "allowed failing checks (documented clean panics only): debug_assert 'invalid entity handle' in resolve_entity/resolve_direct, debug_assert in from_any_unchecked, panic 'invalid entity type'; no memory-safety class check may fail")
+    b = "all 2^64 (key, generation) values / all (index < 2^24, version) direct values; capacity N <= 4; dev profile with debug assertions on AND off"
+    jobs = []
+    def both(h, tier, cost, what, allowed=(), role="", tier_nodbg=None, **kw):
+        jobs.append(J(h, tier, cost, what=what, bounds=b, assumes=a, allowed=tuple(allowed), role=role, **kw))
+        jobs.append(J(h, tier_nodbg or tier, cost, what=what + " (debug assertions off)", bounds=b, assumes=a, debug_assertions=False, role=role, **kw))
+    both("c03_forged_arch_foo_3", Q, 150, "forged entity handle, archetype-level lookups", [CLEAN_ENTITY])
+    both("c03_forged_world_foo_3", Q, 150, "forged entity handle, world-level lookups", [CLEAN_ENTITY], tier_nodbg=T)
+    both("c03_forged_query_foo_3", T, 200, "forged entity handle, ecs_find!/ecs_find_borrow!", [CLEAN_ENTITY])
+    both("c03_forged_arch_foo_0", T, 30, "forged handle vs capacity 0", [CLEAN_ENTITY])
+    both("c03_forged_arch_foo_1", T, 100, "forged handle vs capacity 1, all paths", [CLEAN_ENTITY])
+    both("c03_forged_arch_foo_4", T, 300, "forged handle vs capacity 4", [CLEAN_ENTITY])
+    both("c03_forged_arch_tri_3", T, 200, "forged handle vs 3-column archetype", [CLEAN_ENTITY])
+    both("c03_forged_destroy_typed_foo_3", T, 150, "forged handle into destroy(Entity)", [CLEAN_ENTITY])
+    both("c03_forged_destroy_any_foo_3", Q, 150, "forged handle into destroy(EntityAny)", [CLEAN_ENTITY], tier_nodbg=T)
+    both("c03_forged_destroy_world_foo_3", T, 150, "forged handle into World::destroy(EntityAny)", [CLEAN_ENTITY])
+    both("c03_forged_destroy_any_tri_2", T, 150, "forged handle into destroy, 3 columns", [CLEAN_ENTITY])
+    both("c03_direct_arch_foo_3", Q, 150, "arbitrary / cross-world direct handle, archetype-level lookups", [CLEAN_DIRECT])
+    both("c03_direct_world_foo_3", T, 150, "arbitrary direct handle, world level", [CLEAN_DIRECT])
+    both("c03_direct_query_foo_3", T, 200, "arbitrary direct handle, find queries", [CLEAN_DIRECT])
+    both("c03_direct_arch_foo_0", T, 30, "arbitrary direct handle vs capacity 0", [CLEAN_DIRECT])
+    both("c03_direct_arch_tri_2", T, 150, "arbitrary direct handle, 3 columns", [CLEAN_DIRECT])
+    both("c03_direct_destroy_foo_3", Q, 150, "arbitrary direct handle into destroy", [CLEAN_DIRECT], tier_nodbg=T)
+    both("c03_direct_destroy_any_foo_3", T, 150, "arbitrary EntityDirectAny into destroy", [CLEAN_DIRECT])
+    both("c03_direct_destroy_world_foo_2", T, 150, "arbitrary EntityDirectAny into World::destroy", [CLEAN_DIRECT])
+    both("c03_foreign_direct_foo_3", Q, 100, "direct handle carrying another archetype's id", [CLEAN_DIRECT], tier_nodbg=T)
+    both("c03_unchecked_foo_3", Q, 60, "Entity::from_any_unchecked with arbitrary id", [CLEAN_UNCHECKED, CLEAN_ENTITY], role="unchecked_conversion_foreign_id")
+    both("c03_unchecked_direct_foo_3", Q, 60, "EntityDirect::from_any_unchecked with a foreign id", [CLEAN_UNCHECKED, CLEAN_DIRECT], role="unchecked_conversion_foreign_id")
+    for h in ("c03_world_unknown_contains", "c03_world_unknown_to_direct", "c03_world_unknown_destroy"):
+        jobs.append(J(h, Q if h.endswith("contains") else T, 20, what="world-level call with an undeclared archetype id panics cleanly", bounds=b,
+                      expect_fail=(("invalid entity type", ""),)))
+    return jobs
+
+
+EXPECT_OVERFLOW = (("placeholder message", "std::option::expect_failed"),)
+STUBS = ("Kani -Z stubbing: SlotVersion::next / ArchetypeVersion::next replaced by a function identical below u32::MAX that inspects the world at u32::MAX and ends the path",)
+
+
+def c04():
+    a = (INV_ASSUME, NOOVF, "token ids = dense index (distinct), counters start at 0")
+    b = "capacity N <= 3, <= 4 live tokens, one Drop column + one zero-sized Drop column; leaks of the allocations themselves not claimed"
+    def j(h, t, c, w):
+        return J(h, t, c, what=w, bounds=b, assumes=a)
+    return [
+        j("c04_destroy_typed_3", Q, 150, "typed destroy hands the tuple back undropped; world drop drops the rest once"),
+        j("c04_destroy_any_3", Q, 150, "dynamic destroy drops the components exactly once inside"),
+        j("c04_destroy_direct_forget_3", T, 150, "destroy by direct key; forgotten tuple is never dropped"),
+        j("c04_destroy_any_2", T, 100, "dynamic destroy N=2"),
+        j("c04_create_3", Q, 100, "create: no drop, no clone"),
+        j("c04_create_within_full_2", Q, 100, "failed create_within_capacity returns its argument undropped, unstored"),
+        j("c04_grow_2", Q, 150, "growth neither drops nor clones"),
+        j("c04_grow_0", T, 60, "growth from capacity 0"),
+        j("c04_clone_3", Q, 200, "clone clones each live component once; worlds own disjoint values"),
+        j("c04_clone_2", T, 100, "clone N=2"),
+        j("c04_iter_destroy_3", Q, 200, "ecs_iter_destroy! drops exactly the flagged ones once"),
+        j("c04_iter_destroy_2", T, 100, "ecs_iter_destroy! N=2"),
+        j("c04_history", Q, 60, "public-API history without hooks (cross-check of the step argument)"),
+    ]
+
+
+def c06():
+    a = (INV_ASSUME,)
+    b = "two archetypes, capacities <= 3 each (incl. empty, full); Break at every global step"
+    def j(h, t, c, w):
+        return J(h, t, c, what=w, bounds=b, assumes=a)
+    return [
+        j("c06_iter_shared_2_2", Q, 150, "ecs_iter! over a component shared by both archetypes, symbolic Break step"),
+        j("c06_iter_borrow_shared_2_2", Q, 150, "ecs_iter_borrow! over both archetypes, symbolic Break step"),
+        j("c06_iter_shared_3_2", T, 250, "ecs_iter! capacities 3/2"),
+        j("c06_iter_borrow_shared_2_3", T, 250, "ecs_iter_borrow! capacities 2/3"),
+        j("c06_iter_shared_3_3", T, 400, "ecs_iter! capacities 3/3"),
+        j("c06_iter_tri_only_3_2", Q, 150, "query matching only the first archetype (component set)"),
+        j("c06_iter_borrow_other_only_2_3", T, 150, "query matching only the second archetype (Entity<_> + Q)"),
+        j("c06_iter_borrow_tri_mut_3_1", T, 150, "ecs_iter_borrow! with &mut parameter"),
+        j("c06_iter_other_typed_1_3", T, 150, "Entity<ArchOther> parameter selects one archetype"),
+        j("c06_arch_iter_tri_3", Q, 150, "Archetype::iter / iter_mut / entities()"),
+        j("c06_arch_iter_other_3", T, 150, "Archetype::iter / iter_mut, 2 columns"),
+        j("c06_arch_iter_tri_4", T, 250, "Archetype::iter / iter_mut N=4"),
+        j("c06_slices_tri_3", Q, 100, "get_slice / borrow_slice / get_all_slices_mut lengths and pairing"),
+        j("c06_slices_tri_4", T, 150, "slice accessors N=4"),
+    ]
+
+
+def c07():
+    a = (INV_ASSUME, NOOVF, "entity identity = component value (assumed distinct)")
+    b = "n <= 3 entities per archetype, 2 archetypes, all 4^n decision functions per query"
+    def j(h, t, c, w, **kw):
+        return J(h, t, c, what=w, bounds=b, assumes=a, **kw)
+    return [
+        j("c07_shared_2_1", Q, 300, "both archetypes matched, arbitrary decision table, capacities 2/1"),
+        j("c07_shared_1_2", Q, 300, "capacities 1/2"),
+        j("c07_shared_2_2", T, 600, "capacities 2/2"),
+        j("c07_shared_3_1", T, 600, "capacities 3/1"),
+        j("c07_tri_direct_typed_3", Q, 300, "EntityDirect<A> minted per visit designates the visited entity", role="iter_destroy_minted_direct"),
+        j("c07_tri_direct_any_3", T, 300, "EntityDirectAny minted per visit", role="iter_destroy_minted_direct"),
+        j("c07_tri_direct_wild_2", Q, 200, "EntityDirect<_> minted per visit", role="iter_destroy_minted_direct"),
+        j("c07_tri_direct_wild_3", T, 300, "EntityDirect<_> minted per visit N=3", role="iter_destroy_minted_direct"),
+        j("c07_shared_direct_2_1", T, 400, "direct handles minted in both archetypes", role="iter_destroy_minted_direct"),
+    ]
+
+
+def c08():
+    a = (INV_ASSUME, "ghost handle = arbitrary issued-compatible (position, generation) (DESIGN §3 H1)")
+    b = "capacity N <= 4 (growth to 8); generations full 32 bit incl. u32::MAX"
+    def j(h, t, c, w, **kw):
+        return J(h, t, c, what=w, bounds=b, assumes=a, **kw)
+    return [
+        j("c08_fresh_create_foo_3", Q, 100, "created handle differs from every issued-compatible handle"),
+        j("c08_fresh_create_foo_4", T, 150, "same, N=4"),
+        j("c08_fresh_within_foo_3", T, 100, "same through create_within_capacity"),
+        j("c08_fresh_create_tri_2", T, 100, "same, 3 columns"),
+        j("c08_fresh_grow_foo_2", Q, 100, "same with growth 2->6"),
+        j("c08_fresh_grow_foo_0", T, 60, "growth 0->2"),
+        j("c08_fresh_grow_foo_3", T, 150, "growth 3->8"),
+        j("c08_monotone_destroy_foo_3", Q, 100, "destroy keeps issued-compatibility monotone; destroyed handle can never be issued again"),
+        j("c08_monotone_destroy_foo_4", T, 150, "same, N=4"),
+        j("c08_monotone_destroy_tri_2", T, 100, "same, 3 columns"),
+        j("c08_cross_archetype_2_2", Q, 100, "handles of two archetypes differ"),
+        j("c08_overflow_slot_typed_foo_3", Q, 60, "slot generation at u32::MAX: clean panic instead of reissue", expect_fail=EXPECT_OVERFLOW),
+        j("c08_overflow_slot_any_foo_2", T, 60, "same via World::destroy(EntityAny)", expect_fail=EXPECT_OVERFLOW),
+        j("c08_overflow_slot_direct_foo_2", T, 60, "same via destroy(EntityDirect)", expect_fail=EXPECT_OVERFLOW),
+        j("c08_overflow_arch_typed_foo_3", Q, 60, "archetype version at u32::MAX: clean panic", expect_fail=EXPECT_OVERFLOW),
+        j("c08_overflow_arch_directany_foo_2", T, 60, "same via World::destroy(EntityDirectAny)", expect_fail=EXPECT_OVERFLOW),
+        j("c08_overflow_slot_tri_2", T, 60, "slot overflow, 3 columns", expect_fail=EXPECT_OVERFLOW),
+    ]
+
+
+def c09():
+    a = (INV_ASSUME, NOOVF, "probed direct handles are issued-like (current version => index < len); forged ones are C03")
+    b = "capacity N <= 4; archetype version full 32 bit"
+    def j(h, t, c, w, **kw):
+        return J(h, t, c, what=w, bounds=b, assumes=a, **kw)
+    jobs = [
+        j("c09_obtain_typed_remove_foo_3", Q, 200, "to_direct(Entity) then any removal: accepted at issue, rejected afterwards"),
+        j("c09_obtain_any_remove_foo_3", T, 200, "to_direct(EntityAny) then removal"),
+        j("c09_obtain_wtyped_create_foo_3", Q, 200, "World::to_direct then creation: same entity or rejected"),
+        j("c09_obtain_wany_recreate_foo_3", Q, 250, "remove last dense entity + re-create at same index: old direct handle rejected"),
+        j("c09_obtain_direct_remove_foo_3", Q, 200, "to_direct(EntityDirect) then removal", role="to_direct_on_direct_key"),
+        j("c09_obtain_wdirectany_remove_foo_2", T, 250, "World::to_direct(EntityDirectAny) then removal", role="to_direct_on_direct_key"),
+        j("c09_obtain_typed_recreate_tri_2", T, 200, "re-creation at same dense index, 3 columns"),
+        j("c09_obtain_any_create_tri_3", T, 200, "creation after to_direct, 3 columns"),
+        j("c09_step_destroy_foo_3", Q, 250, "arbitrary direct handle probed after a destroy step, all paths", role="to_direct_on_direct_key"),
+        j("c09_step_create_foo_3", T, 250, "arbitrary direct handle probed after a create step", role="to_direct_on_direct_key"),
+        j("c09_step_destroy_foo_4", T, 300, "destroy step N=4", role="to_direct_on_direct_key"),
+        j("c09_step_destroy_tri_3", T, 250, "destroy step, 3 columns", role="to_direct_on_direct_key"),
+    ]
+    for i, h in enumerate(("c09_minted_iter_typed_3", "c09_minted_iter_any_3", "c09_minted_iter_borrow_wild_3", "c09_minted_iter_borrow_any_3",
+              "c09_minted_find_typed_3", "c09_minted_find_any_3", "c09_minted_find_borrow_wild_3", "c09_minted_find_borrow_bydirect_3",
+              "c09_minted_find_bydirectany_3")):
+        jobs.append(j(h, Q if i in (0, 3, 4, 7) else T, 120, "direct handle minted by a query macro resolves to the entity it was handed out for"))
+    # handles minted by ecs_iter_destroy! (shared harness with C07)
+    jobs.append(J("c07_tri_direct_typed_3", Q, 300, what="EntityDirect<A> minted by ecs_iter_destroy! accepted iff nothing was removed since", bounds=b, assumes=a, role="iter_destroy_minted_direct"))
+    jobs.append(J("c07_tri_direct_any_3", T, 300, what="EntityDirectAny minted by ecs_iter_destroy!", bounds=b, assumes=a, role="iter_destroy_minted_direct"))
+    return jobs
+
+
+def c10():
+    a = (INV_ASSUME,) + STUBS + ("panic in a user query closure / Into<Components> / Drop of a returned tuple happens between operations (generated code is safe Rust): state-wise the Break-at-k case of C06/C07",
+                               "release of RefCell guards by unwinding is std's guarantee (Kani cannot unwind)")
+    b = "capacity N <= 3; every documented panic point with a gecs frame on the stack: slot/archetype counter overflow inside destroy (4 key kinds) and ecs_iter_destroy!, k-th Clone::clone, k-th Drop::drop, capacity overflow in create / with_capacity"
+    def j(h, t, c, w, **kw):
+        return J(h, t, c, what=w, bounds=b, assumes=a, **kw)
+    ov = dict(stubbing=True, role="overflow_mid_destroy")
+    return [
+        j("c10_overflow_destroy_typed_foo_3", Q, 100, "state AT the counter-overflow panic inside destroy(Entity) satisfies Inv, every entity whole or (target) absent", **ov),
+        j("c10_overflow_destroy_any_foo_3", Q, 100, "same inside World::destroy(EntityAny)", **ov),
+        j("c10_overflow_destroy_direct_foo_2", T, 80, "same inside destroy(EntityDirect)", **ov),
+        j("c10_overflow_destroy_directany_foo_2", T, 80, "same inside World::destroy(EntityDirectAny)", **ov),
+        j("c10_overflow_destroy_any_tri_2", T, 100, "same, 3-column archetype", **ov),
+        j("c10_overflow_point_witness_foo_3", Q, 60, "vacuity witness: both overflow points are reachable from Inv states", stubbing=True),
+        j("c10_overflow_iter_destroy_foo_2", Q, 150, "state at the overflow panic in the middle of ecs_iter_destroy!", **ov),
+        j("c10_overflow_iter_destroy_foo_3", T, 300, "same, N=3", **ov),
+        j("c10_callbacks_clone_drop_3", Q, 200, "source world intact at every Clone::clone call; no token dropped twice at any Drop::drop call"),
+        j("c10_callbacks_clone_drop_2", T, 100, "same, N=2"),
+        j("c10_capacity_overflow_create", Q, 20, "create at the 2^24 limit panics before touching anything", expect_fail=(("capacity overflow", "push"),)),
+        j("c10_capacity_overflow_with_capacity", Q, 20, "with_capacity(> 2^24) panics", expect_fail=(("capacity may not exceed", "with_capacity"),)),
+    ]
+
+
+def c12():
+    a = (INV_ASSUME, NOOVF)
+    b = "capacity N <= 4 for steps/refill; the 2^24 limit on a hook-built state whose allocation is never touched; actually filling 2^24 cells is outside"
+    def j(h, t, c, w, **kw):
+        return J(h, t, c, what=w, bounds=b, assumes=a, **kw)
+    return [
+        j("c12_within_foo_3", Q, 100, "create_within_capacity: Ok iff len < capacity, capacity unchanged, argument returned otherwise"),
+        j("c12_within_foo_0", T, 30, "same at capacity 0"),
+        j("c12_within_tri_2", T, 100, "same, 3 columns"),
+        j("c12_destroy_foo_3", Q, 100, "len/is_empty/capacity after destroy; free-list accounting (Inv I4)"),
+        j("c12_destroy_foo_4", T, 150, "same, N=4"),
+        j("c12_create_foo_3", Q, 150, "create: len+1, capacity never decreases, no growth while there is room"),
+        j("c12_create_foo_1", T, 80, "same, N=1"),
+        j("c12_refill_foo_3", Q, 150, "refill to exactly capacity from any pattern of free positions, then refuse"),
+        j("c12_refill_foo_4", T, 300, "refill N=4"),
+        j("c12_refill_tri_3", T, 200, "refill, 3 columns"),
+        j("c12_with_capacity_fill_3", Q, 100, "with_capacity(n) permits n creations without reallocation (public API only)"),
+        j("c12_with_capacity_fill_1", T, 60, "same n=1"),
+        j("c12_zero_capacity", Q, 40, "capacity 0: refuse within capacity, grow on create"),
+        j("c12_limit_within_capacity", Q, 20, "create_within_capacity at the 2^24 limit refuses, nothing changes"),
+        j("c12_limit_create_panics", Q, 20, "create at the 2^24 limit panics 'capacity overflow'", expect_fail=(("capacity overflow", "push"),)),
+        j("c12_limit_with_capacity_panics", Q, 20, "with_capacity beyond 2^24 panics", expect_fail=(("capacity may not exceed", "with_capacity"),)),
+    ]
+
+
+def c13():
+    a = (INV_ASSUME, NOOVF, ISSUED)
+    b = "capacity N <= 3; 1, 2 and 3 column archetypes; pending events compared in C17's clone harness (events feature)"
+    def j(h, t, c, w, **kw):
+        return J(h, t, c, what=w, bounds=b, assumes=a, **kw)
+    return [
+        j("c13_clone_create_on_clone_foo_3", Q, 250, "clone == original over the whole capacity; create on the clone invisible in the original"),
+        j("c13_clone_destroy_on_orig_foo_3", Q, 250, "destroy on the original invisible in the clone"),
+        j("c13_clone_recycle_on_clone_foo_3", T, 300, "destroy+create on the clone"),
+        j("c13_clone_refill_clone_foo_3", Q, 200, "the clone can be refilled to capacity"),
+        j("c13_clone_refill_orig_foo_2", T, 250, "the original can be refilled after cloning"),
+        j("c13_clone_destroy_on_clone_tri_3", Q, 300, "3-column archetype"),
+        j("c13_clone_create_on_orig_tri_2", T, 250, "growth of the original after cloning"),
+        j("c13_clone_recycle_on_orig_other_2", T, 200, "2-column archetype"),
+        j("c13_clone_foo_0", T, 40, "clone of a capacity-0 archetype"),
+    ]
+
+
 PROPERTIES = {
     "C01": dict(jobs=c01, title="A handle resolves iff its entity is alive; stale handles never resolve"),
+    "C02": dict(jobs=c02, title="Every access path returns the entity's own, latest component values"),
+    "C03": dict(jobs=c03, title="Arbitrary, forged or foreign handles are memory-safe and never match by accident"),
+    "C04": dict(jobs=c04, title="Each component value is dropped exactly once"),
+    "C06": dict(jobs=c06, title="Iteration visits every matching live entity exactly once"),
+    "C07": dict(jobs=c07, title="ecs_iter_destroy! visits once, destroys exactly the flagged ones"),
+    "C08": dict(jobs=c08, title="No handle is ever issued twice"),
+    "C09": dict(jobs=c09, title="A direct handle never designates another entity and dies with any removal"),
+    "C10": dict(jobs=c10, title="A panic leaves the world consistent"),
+    "C12": dict(jobs=c12, title="len and capacity are exact"),
+    "C13": dict(jobs=c13, title="A cloned world is identical and independent"),
 }
 
 
